@@ -102,7 +102,7 @@ theorem natDigits_shape (n : Nat) : ∃ c tl, natDigits n = c :: tl ∧ Machine.
 
 omit hext in
 /-- what may follow a value inside the text of an array (or nothing, at top level) -/
-def SepOK (rest : Bytes) : Prop := rest = [] ∨ ∃ c tl, rest = c :: tl ∧ (c = 0x2c ∨ c = 0x5d)
+def SepOK (rest : Bytes) : Prop := rest = [] ∨ ∃ c tl, rest = c :: tl ∧ (c = 0x2c ∨ c = 0x5d ∨ c = 0x7d)
 
 omit hext in
 theorem skipWs_cons {c : UInt8} (hc : Machine.isWs c = false) (tl : Bytes) (pos : Nat) : skipWs (c :: tl) pos = (c :: tl, pos) := by
@@ -160,7 +160,8 @@ theorem sep_facts {rest : Bytes} (h : SepOK rest) :
     (rest = [] ∨ ∃ c tl, rest = c :: tl ∧ (c == 0x2e) = false ∧ (c == 0x65 || c == 0x45) = false) := by
   rcases h with rfl | ⟨c, tl, rfl, hc⟩
   · exact ⟨.inl rfl, .inl rfl⟩
-  · rcases hc with rfl | rfl
+  · rcases hc with rfl | rfl | rfl
+    · exact ⟨.inr ⟨_, _, rfl, by decide⟩, .inr ⟨_, _, rfl, by decide, by decide⟩⟩
     · exact ⟨.inr ⟨_, _, rfl, by decide⟩, .inr ⟨_, _, rfl, by decide, by decide⟩⟩
     · exact ⟨.inr ⟨_, _, rfl, by decide⟩, .inr ⟨_, _, rfl, by decide, by decide⟩⟩
 
@@ -232,8 +233,50 @@ end
 
 /-! ## agreement on printed values, leaf targets -/
 
+mutual
+/-- `Spec.WF.shapeOK {}` without the condition on the order of the keys (the text leg reads members in the order
+    they are written, and so does `from_value`): numbers as `Number` holds them without `arbitrary_precision`,
+    strings and keys valid UTF-8 -/
+def shapeW : JV → Bool
+  | .num n => Spec.WF.wfNum {} n
+  | .str s => Spec.Utf8.validUtf8 s
+  | .arr xs => shapeWs xs
+  | .obj kvs => shapeWm kvs
+  | _ => true
+def shapeWs : List JV → Bool
+  | [] => true
+  | x :: xs => shapeW x && shapeWs xs
+def shapeWm : List (Bytes × JV) → Bool
+  | [] => true
+  | (k, x) :: kvs => Spec.Utf8.validUtf8 k && shapeW x && shapeWm kvs
+end
+
+omit hext in
+mutual
+theorem shapeW_of_shapeOK : ∀ v : JV, Spec.WF.shapeOK {} v = true → shapeW v = true
+  | .null, _ | .bool _, _ => rfl
+  | .num n, h => by simpa [shapeW, Spec.WF.shapeOK] using h
+  | .str s, h => by simpa [shapeW, Spec.WF.shapeOK] using h
+  | .arr xs, h => by
+    simp only [shapeW, Spec.WF.shapeOK] at h ⊢
+    exact shapeWs_of_shapeOKs xs h
+  | .obj kvs, h => by
+    simp only [shapeW, Spec.WF.shapeOK, Bool.and_eq_true] at h ⊢
+    exact shapeWm_of_shapeOKm kvs h.2
+theorem shapeWs_of_shapeOKs : ∀ xs : List JV, Spec.WF.shapeOKs {} xs = true → shapeWs xs = true
+  | [], _ => rfl
+  | x :: xs, h => by
+    simp only [shapeWs, Spec.WF.shapeOKs, Bool.and_eq_true] at h ⊢
+    exact ⟨shapeW_of_shapeOK x h.1, shapeWs_of_shapeOKs xs h.2⟩
+theorem shapeWm_of_shapeOKm : ∀ kvs : List (Bytes × JV), Spec.WF.shapeOKm {} kvs = true → shapeWm kvs = true
+  | [], _ => rfl
+  | (k, x) :: kvs, h => by
+    simp only [shapeWm, Spec.WF.shapeOKm, Bool.and_eq_true] at h ⊢
+    exact ⟨⟨h.1.1, shapeW_of_shapeOK x h.1.2⟩, shapeWm_of_shapeOKm kvs h.2⟩
+end
+
 /-- the values of the staged claim: representable without `arbitrary_precision`, no floats -/
-def VOK (v : JV) : Prop := Spec.WF.shapeOK {} v = true ∧ Spec.WF.noFloat v = true
+def VOK (v : JV) : Prop := shapeW v = true ∧ Spec.WF.noFloat v = true
 
 /-- a typed parser `de` on the text `txt` (followed by a separator) against the verdict `fv` of the `Value` side -/
 def Agree1 (de : Bytes → Nat → TOut) (fv : FromValue.R) (txt : Bytes) : Prop := ∀ rest pos, SepOK rest →
@@ -262,10 +305,10 @@ theorem T_head (v : JV) (hv : VOK v) : ∃ c tl, T ext v = c :: tl ∧ HeadOf v 
     cases n with
     | pos n => obtain ⟨c, tl, h, hc, _⟩ := natDigits_shape n; exact ⟨c, tl, by rw [T_pos ext hext, h], hc⟩
     | neg i =>
-      have hi : i < 0 := by have := hv.1; simp [Spec.WF.shapeOK, Spec.WF.wfNum] at this; exact this.2
+      have hi : i < 0 := by have := hv.1; simp [shapeW, Spec.WF.wfNum] at this; exact this.2
       exact ⟨_, _, T_neg ext hext i hi, rfl⟩
     | float b => have := hv.2; simp [Spec.WF.noFloat] at this
-    | lit s => have := hv.1; simp [Spec.WF.shapeOK, Spec.WF.wfNum] at this
+    | lit s => have := hv.1; simp [shapeW, Spec.WF.wfNum] at this
   | str s => obtain ⟨tl, h⟩ := T_str ext s; exact ⟨_, tl, h, rfl⟩
   | arr xs => exact ⟨_, _, T_arr ext xs, rfl⟩
   | obj kvs => obtain ⟨tl, h⟩ := T_obj ext kvs; exact ⟨_, tl, h, rfl⟩
@@ -438,7 +481,7 @@ theorem agree_int (w : IntTy) (v : JV) (hv : VOK v) : Agree1 (deInt env w) (From
   | num n =>
     cases n with
     | pos n =>
-      have hn : n < 2 ^ 64 := by have := hv.1; simpa [Spec.WF.shapeOK, Spec.WF.wfNum] using this
+      have hn : n < 2 ^ 64 := by have := hv.1; simpa [shapeW, Spec.WF.wfNum] using this
       simp only [FromValue.fromValue, FromValue.deInt, FromValue.numberInt, hap, Bool.false_eq_true, if_false, visitInt_eq]
       rw [T_pos ext hext] at hT ⊢
       -- what the typed side computes
@@ -481,7 +524,7 @@ theorem agree_int (w : IntTy) (v : JV) (hv : VOK v) : Agree1 (deInt env w) (From
         rw [key]
         split <;> simp
     | neg i =>
-      have hi : -(2 ^ 63 : Int) ≤ i ∧ i < 0 := by have := hv.1; simpa [Spec.WF.shapeOK, Spec.WF.wfNum] using this
+      have hi : -(2 ^ 63 : Int) ≤ i ∧ i < 0 := by have := hv.1; simpa [shapeW, Spec.WF.wfNum] using this
       simp only [FromValue.fromValue, FromValue.deInt, FromValue.numberInt, hap, Bool.false_eq_true, if_false, visitInt_eq]
       have hT' := T_neg ext hext i hi.2
       rw [hT']
@@ -641,7 +684,7 @@ omit hflt hap hext in
 /-- the separator that follows an element is admissible (`,` or `]`) -/
 theorem sepOK_tail (xs : List JV) (rest : Bytes) : SepOK (Ttail ext xs ++ 0x5d :: rest) := by
   cases xs with
-  | nil => exact .inr ⟨0x5d, rest, rfl, .inr rfl⟩
+  | nil => exact .inr ⟨0x5d, rest, rfl, .inr (.inl rfl)⟩
   | cons x xs => exact .inr ⟨0x2c, _, rfl, .inl rfl⟩
 
 /-- elements of an array read by the element parser `de`, against `seqAll fv`; `first`: no element has been read yet -/
@@ -807,13 +850,13 @@ theorem depthOK_elem (t : Nat) (xs : List JV) (x : JV) (hx : x ∈ xs) (h : Dept
 omit hflt hap hext in
 theorem vok_elem : ∀ (xs : List JV) (x : JV), x ∈ xs → VOK (.arr xs) → VOK x := by
   intro xs x hx hv
-  have h1 : Spec.WF.shapeOKs {} xs = true := by simpa [Spec.WF.shapeOK] using hv.1
+  have h1 : shapeWs xs = true := by simpa [shapeW] using hv.1
   have h2 : Spec.WF.noFloats xs = true := by simpa [Spec.WF.noFloat] using hv.2
   clear hv
   induction xs with
   | nil => simp at hx
   | cons y ys ih =>
-    simp only [Spec.WF.shapeOKs, Spec.WF.noFloats, Bool.and_eq_true] at h1 h2
+    simp only [shapeWs, Spec.WF.noFloats, Bool.and_eq_true] at h1 h2
     rcases List.mem_cons.mp hx with rfl | hx
     · exact ⟨h1.1, h2.1⟩
     · exact ih hx h1.2 h2.2
